@@ -17,7 +17,7 @@ from .mir import engine as mir_engine, exec as mx, chain, cmpcfg
 from .mir.cmpcfg import FieldAtoms, TRAITS, ATTRS
 
 PID = "C04"
-OPAQUE = {"ItemSourceKind::this_of", "ItemSourceKind::self_of", "ItemSourceKind::other_of", "Template::apply", "replace_tokens", "FieldEntry::make_ident",
+OPAQUE = {"ItemSourceKind::this_of", "ItemSourceKind::self_of", "ItemSourceKind::other_of", "Template::apply", "replace_tokens", "ref_elem", "FieldEntry::make_ident",
           "FieldEntry::member", "FieldEntry::span", "VariantEntry::make_pat", "VariantEntry::make_pat_with_self_path", "VariantEntry::make_pat_wildcard",
           "build_to_index_fn", "DeriveItemKind::to_path", "CompareOp::to_path", "build_ctor_args", "with_ref", "member", "expand_self",
           "WhereClauseBuilder::new", "WhereClauseBuilder::build", "GenericParamSet::contains_in_type",
